@@ -123,6 +123,12 @@ HungEv(t) ==
   /\ bad' = bad \cup {"hung"}
   /\ UNCHANGED <<Model, tr, dev, pend>> /\ Step1
 
+(* a timed acquire() gave up because another thread holds the lock: t is still outside *)
+TimeoutEv(t) ==
+  /\ More /\ Ev.e = "acquire_timeout" /\ Ev.t = t
+  /\ WantsLock(t) /\ owner # 0 /\ owner # t
+  /\ UNCHANGED <<Model, tr, dev, bad, pend>> /\ Step1
+
 (* after self_wait / hung the evaluation is aborted by the harness: its frames vanish *)
 AbortEv(t) ==
   /\ More /\ Ev.e = "abort" /\ Ev.t = t
@@ -138,10 +144,10 @@ AbortEv(t) ==
 Hint(c) == Ev.v = "" \/ Loc(c) = Ev.v
 Silent(t) ==
   /\ More /\ Ev.e # "reset" /\ Ev.t = t /\ pend[t] = "none"
-  /\ \/ /\ Ev.e \in {"acquire", "self_wait", "hung"}
+  /\ \/ /\ Ev.e \in {"acquire", "self_wait", "hung", "acquire_timeout"}
         /\ \E c \in Colls, k \in Kinds : Hint(c) /\ Call(t, c, k)
         /\ UNCHANGED dev
-     \/ /\ Ev.e \in {"acquire", "self_wait", "hung"}
+     \/ /\ Ev.e \in {"acquire", "self_wait", "hung", "acquire_timeout"}
         /\ \E c \in Colls : Hint(c) /\ CallArg(t, c)
         /\ UNCHANGED dev
      \/ (EvalArgs(t) \/ ResumeLazy(t) \/ ArgError(t) \/ Recurse(t) \/ Yield(t) \/ Return(t)) /\ UNCHANGED dev
@@ -165,6 +171,7 @@ TNext ==
   \/ \E t \in Threads : ReleaseEv(t)
   \/ \E t \in Threads : SelfWaitEv(t)
   \/ \E t \in Threads : HungEv(t)
+  \/ \E t \in Threads : TimeoutEv(t)
   \/ \E t \in Threads : AbortEv(t)
   \/ \E t \in Threads : Silent(t)
 
